@@ -104,6 +104,12 @@ def str_cases(rng):
     for cp in (0x41, 0x7f, 0x80, 0x7ff, 0x800, 0x20ac, 0xffff, 0x10000, 0x10ffff, 0xd7ff, 0xe000):
         cases.append(("str", '"\\u{%x}"' % cp))
         cases.append(("str", '"\\u{%X}"' % cp))
+    # the number of digits of a unicode escape: one to six, leading zeros included (7 and 8 digits are E162 whatever the value)
+    for digits in range(1, 9):
+        for cp in (0x0, 0x41, 0x20ac):
+            if len("%x" % cp) <= digits:
+                cases.append(("str", '"\\u{%s}"' % ("%x" % cp).rjust(digits, "0")))
+    cases.append(("str", "'\\u{41}'"))
     for bad in ('"\\u{d800}"', '"\\u{110000}"', '"\\u{}"', '"\\u41"', '"\\q"', '"\\x4"', '"\\x"', '"abc', "'ab'", "''",
                 '"\\u{dfff}"', '"a\tb"', '"\\', "'\\"):
         cases.append(("str", bad))
